@@ -16,6 +16,7 @@ type execd struct {
 	q        *creq // nil = internal upgrade request
 	upg      bool  // login succeeded with an upgradeable hash (and upgrades are on)
 	gen      bool  // a Generate call was seen (the hash was rewritten)
+	pw       string // password of the hasher call that revealed this execution
 	preDigest string
 }
 
@@ -99,11 +100,11 @@ func runSchedule(c *vctx, a *vAgent, g *gate, mode string, dflt uint, batch []*c
 			}
 			break
 		}
-		if next.kind == "gen" && current.q == nil && !current.gen {
+		if next.kind == "gen" && current.q == nil && !current.gen && next.pw == current.pw {
 			current.gen = true // the internal upgrade proceeds to rewrite the hash
 			continue
 		}
-		e := &execd{}
+		e := &execd{pw: next.pw}
 		if next.kind == "gen" {
 			for _, q := range batch {
 				if (q.kind == "update" || q.kind == "add") && q.pw == next.pw && !inOrder(order, q) {
